@@ -73,14 +73,14 @@ class Case:
         self.vec = vec
         self.text = ""
         self.modes = []      # (mode, Prog, query text)
-        base = {k: vec[k] for k in ("prog", "q", "qv", "ans", "status", "ball", "dynkeys")}
+        base = {k: vec[k] for k in ("prog", "q", "qv", "ans", "status", "ball", "balts", "dynkeys")}
         alt = {a["mode"]: a["o"] for a in vec["alt"]}
         self.alt = alt
         has_p2 = any(terms.name_of(c["h"]["n"]) == "p2" for c in vec["prog"]) or bool(vec["dynkeys"])
 
         def expect(v, mode):
             if mode in alt:
-                v["ans"], v["status"], v["ball"] = alt[mode]["ans"], alt[mode]["status"], alt[mode]["ball"]
+                v["ans"], v["status"], v["ball"], v["balts"] = alt[mode]["ans"], alt[mode]["status"], alt[mode]["ball"], alt[mode]["balts"]
             return v
 
         def dyn_decl(pr):
@@ -216,6 +216,8 @@ class Case:
             tags.append("cut-in-meta-arg")
         if any(is_nonnumeric_lhs(terms.from_tla(c["b"])) for c in self.vec["prog"]):
             tags.append("is-nonnumeric-lhs")
+        if any(cut_in_ite_cond(terms.from_tla(c["b"])) for c in self.vec["prog"]):
+            tags.append("cut-in-ite-cond")
         return ",".join(tags) or "-"
 
 
@@ -234,6 +236,26 @@ def cut_in_meta_arg(t, inside):
     if k in OPAQUE:
         return any(cut_in_meta_arg(t[2][i], True) for i in OPAQUE[k])
     return False
+
+
+def tcut(t):
+    """a cut reachable through ',', ';' and the branches of '->' (TCut of MC_C08)"""
+    if t == ('a', '!'):
+        return True
+    if t[0] == 'c' and len(t[2]) == 2 and t[1] in (',', ';'):
+        return tcut(t[2][0]) or tcut(t[2][1])
+    if t[0] == 'c' and len(t[2]) == 2 and t[1] == '->':
+        return tcut(t[2][1])
+    return False
+
+
+def cut_in_ite_cond(t):
+    """some if-then-else (C -> T ; E) whose condition C contains a cut that belongs to the condition"""
+    if t[0] != 'c':
+        return False
+    if t[1] == ';' and len(t[2]) == 2 and t[2][0][0] == 'c' and t[2][0][1] == '->' and len(t[2][0][2]) == 2 and tcut(t[2][0][2][0]):
+        return True
+    return any(cut_in_ite_cond(x) for x in t[2])
 
 
 def is_nonnumeric_lhs(t):
@@ -286,7 +308,17 @@ def same_real(pr1, r1, pr2, r2):
     if len(a1) != len(a2) or not all(x is not None and y is not None and terms.variant(x, y) for x, y in zip(a1, a2)):
         return False
     if isinstance(t1, tuple) or isinstance(t2, tuple):
-        return isinstance(t1, tuple) and isinstance(t2, tuple) and terms.variant(t1, t2)
+        if not (isinstance(t1, tuple) and isinstance(t2, tuple)):
+            return False
+        if terms.variant(t1, t2):
+            return True
+        # several erroneous subterms in one arithmetic expression: which error is raised is not specified (see Prolog.tla ArithErrs)
+        alts = [terms.from_tla(x) for x in [pr1.vec["ball"]] + list(pr1.vec.get("balts", []))]
+        alts = [x[2][0] for x in alts if x[0] == 'c' and x[1] == 'error' and len(x[2]) == 2]
+
+        def adm(t):
+            return t[0] == 'c' and t[1] == 'error' and any(terms.variant(t[2][0], f) for f in alts)
+        return adm(t1) and adm(t2)
     return True      # None / 'F': whether the last answer leaves a choice point is not specified
 
 
@@ -370,18 +402,19 @@ def run(tier):
     rep = Report(PROP, tier, "model_checking")
     quick = tier == "quick"
     rep.rule = ("the program space of C07 (exhaustive: every 1- and 2-clause definition of p/1 of the grammar of MC_C07 in both clause "
-                "orders; simulation: random programs of 1-4+0-3 clauses), each replayed in the modes S static, D discontiguous pieces, "
+                "orders, thorough: the full body grammar with the three second clauses of the quick tier; simulation: random programs of "
+                "1-4+0-3 clauses), each replayed in the modes S static, D discontiguous pieces, "
                 "A assertz, M meta-interpreter over clause/2, Q call/1, N call/N, B call-wrapped bodies; an evaluation is one "
                 "(program, mode) replay; distinct = mode x set of control constructs/builtins used x outcome kind")
-    res, vecs0 = generate("MC_C08", "MC_C08_exh_%s.cfg" % tier, workers=8 if quick else 14, timeout=6000)
+    res, vecs0 = generate("MC_C08", "MC_C08_exh_%s.cfg" % tier, workers=8, timeout=20000)
     rep.add_tlc(res)
     mi = [v for v in vecs0 if v.get("kind") == "mi"]
     if len(mi) != 1:
         raise common.ToolError("meta-interpreter vector missing")
     MI = mi_text(mi[0]["clauses"])
     vecs = [v for v in vecs0 if v.get("kind") != "mi"]
-    sims = common.simulate_parallel("MC_C08", "MC_C08_sim_%s.cfg" % tier, procs=6 if quick else 14,
-                                    num=250 if quick else 5000, depth=4, timeout=6000)
+    sims = common.simulate_parallel("MC_C08", "MC_C08_sim_%s.cfg" % tier, procs=6 if quick else 8,
+                                    num=150 if quick else 1200, depth=4, timeout=20000)
     seen = set(json.dumps(v, sort_keys=True) for v in vecs)
     for sim in sims:
         tlc_ok(sim, "C08 simulation")
